@@ -561,7 +561,7 @@ func (fn FirstValue) CheckArgsLen(expr parser.AnalyticFunction) error {
 }
 
 func (fn FirstValue) Execute(ctx context.Context, scope *ReferenceScope, partition Partition, expr parser.AnalyticFunction) (map[int]value.Primary, error) {
-	return setNthValue(ctx, scope, partition, expr, 1)
+	return setNthValue(ctx, scope, partition, expr, 1, false)
 }
 
 type LastValue struct{}
@@ -571,8 +571,7 @@ func (fn LastValue) CheckArgsLen(expr parser.AnalyticFunction) error {
 }
 
 func (fn LastValue) Execute(ctx context.Context, scope *ReferenceScope, partition Partition, expr parser.AnalyticFunction) (map[int]value.Primary, error) {
-	partition.Reverse()
-	return setNthValue(ctx, scope, partition, expr, 1)
+	return setNthValue(ctx, scope, partition, expr, 1, true)
 }
 
 type NthValue struct{}
@@ -597,10 +596,12 @@ func (fn NthValue) Execute(ctx context.Context, scope *ReferenceScope, partition
 		return nil, NewFunctionInvalidArgumentError(expr, expr.Name, "the second argument must be greater than 0")
 	}
 
-	return setNthValue(ctx, scope, partition, expr, n)
+	return setNthValue(ctx, scope, partition, expr, n, false)
 }
 
-func setNthValue(ctx context.Context, scope *ReferenceScope, partition Partition, expr parser.AnalyticFunction, n int) (map[int]value.Primary, error) {
+// setNthValue sets the n-th value of the window frame of each record, counted from the first row of the
+// frame, or from its last row if fromLast is true.
+func setNthValue(ctx context.Context, scope *ReferenceScope, partition Partition, expr parser.AnalyticFunction, n int, fromLast bool) (map[int]value.Primary, error) {
 	frameSet := WindowFrameSet(partition, expr.AnalyticClause)
 	list := make(map[int]value.Primary, len(partition))
 
@@ -611,7 +612,11 @@ func setNthValue(ctx context.Context, scope *ReferenceScope, partition Partition
 		var val value.Primary = value.NewNull()
 		count := 0
 
-		for i := frame.Low; i <= frame.High; i++ {
+		i, step := frame.Low, 1
+		if fromLast {
+			i, step = frame.High, -1
+		}
+		for ; frame.Low <= i && i <= frame.High; i += step {
 			if i < 0 || len(partition) <= i {
 				continue
 			}
